@@ -147,6 +147,16 @@ def gen_case(rng, tier):
         case["clash_labels"] = True
     if endpoint and rng.random() < 0.25:
         case["repeat_rows"] = True       # an endpoint may repeat rows (a triple in two named graphs); still deterministic
+    # near misses of the stated exception: the caller's prefixes *resemble* all four defaults (other letter case, a digit
+    # or an underscore more) but leave at least three of them free - a default must be chosen, nothing random
+    r2 = random.Random("C19-nearmiss|%r|%r" % (case["graph"][:40], sorted(ns.items())))
+    if not all_taken and r2.random() < 0.1:
+        for k in [k for k in ns if k.startswith("http://taken")]:
+            del ns[k]
+        ns["http://taken0.org/"] = ""
+        for i, p in enumerate(["weso-s", "shapes", "w-shapes"]):
+            ns["http://taken%d.org/" % (i + 1)] = r2.choice([p.upper(), p.capitalize(), p + "1", p.replace("-", "_") + "_"])
+        case["near_miss_prefixes"] = True
     return case
 
 
@@ -369,6 +379,8 @@ def execute(scen, scratch):
         ref = results[0]
         store_backed = case["channel"] in STORE_BACKED or ("shape_map_raw" in case["target"] and case["channel"] in ("nt",))
         exempt = case.get("exempt_random_prefix", False)
+        if case.get("near_miss_prefixes"):
+            sim.probes["near_miss_prefix_cases"] += 1
         verdicts.append((ci, case["channel"], ref["shex"]["kind"], sha(ref["shex"].get("text", "")) if ref["shex"]["kind"] == "ok" else ref["shex"].get("exc")))
         shex_tie_choice = False
         shex_differs = False
